@@ -12,7 +12,9 @@ mod msgen;
 mod special;
 mod special_msm;
 mod drv_frame;
+mod drv_msm;
 mod drv_rt;
+mod drv_sig;
 mod fieldlib;
 mod frames;
 mod generated;
@@ -42,6 +44,8 @@ fn main() {
         ("record", "roundtrip") => drv_rt::rec_roundtrip(&a, &mut out),
         ("record", "fields") => drv_fields::rec_fields(&a, &mut out),
         ("record", "probes") => drv_fields::rec_probes(&a, &mut out),
+        ("record", "sigtable") => drv_sig::rec_sigtable(&a, &mut out),
+        ("record", "msm") => drv_msm::rec_msm(&a, &mut out),
         _ => {
             eprintln!("usage: rtcm_conf record|replay <family> key=value...");
             std::process::exit(2);
